@@ -1,4 +1,5 @@
 import OsmVerif.Lemmas.Search19
+import OsmVerif.Lemmas.Search19b
 import OsmVerif.Model.Replication
 /-!
 # C19 — replication state lookup by time returns the first state at or after t
@@ -325,6 +326,39 @@ theorem findInRangeL_requests_gapfree (av : Avail) (t : Int)
           rw [Nat.add_comm, Nat.pow_succ]
           omega
     · simp; omega
+
+/-! ## the sum-form request bound -/
+
+/-- **requests of the binary search = O(log range) + O(missing files), as a SUM** — for every availability
+    pattern (no monotonicity needed), every query time and any fuel: at most `⌈log₂(hi-lo)⌉ + 3·(missing files
+    strictly between the bounds) + 1` requests. Each run of missing files is stepped over at most three
+    times (once from the midpoint, once more when it has become adjacent to the lower bound, once in the
+    final pass over an all-missing interval); the potential `⌈log₂(width − run adjacent to lo)⌉ + 3·missing −
+    run` decreases by at least the number of requests of every iteration (`Lemmas/Search19b.lean`). -/
+theorem findInRange_requests_sum (av : Avail) (t : Int) (f lo hi : Nat) (h : lo < hi) :
+    (findInRangeL av t f lo hi).2.length ≤ clog (hi - lo) + 3 * missing av lo hi + 1 :=
+  findInRangeL_requests_sum av t f lo hi h
+
+/-- the whole lookup when the stater's minimum state exists (the regular case): the current state, the minimum,
+    and the binary search between them -/
+theorem search_requests_sum (av : Avail) (cur min : Nat) (t : Int) (m : Int) (hmin : av min = some m) (hlt : min < cur) :
+    (searchL av cur min t).2.length ≤ clog (cur - min) + 3 * missing av min cur + 3 := by
+  unfold searchL
+  cases hc : av cur with
+  | none => simp
+  | some cts =>
+    simp only
+    split
+    · simp
+    · simp only [hmin]
+      split
+      · simp
+      · have := findInRangeL_requests_sum av t (cur - min) min cur hlt
+        simp only [List.length_cons, List.length_append, List.length_nil]
+        omega
+
+/-- `clog` is the ceiling of the binary logarithm -/
+theorem clog_spec (n k : Nat) (hn : 1 ≤ n) : clog n ≤ k ↔ n ≤ 2 ^ k := clog_le_iff n k hn
 
 /-! ## non-vacuity, and the gap pattern on which the unrepaired loop never returned -/
 def exAv : Avail := fun n => if n = 1 then some 10 else if n = 3 then some 30 else if n = 4 then some 40 else none
